@@ -2,7 +2,7 @@
 from . import _scn
 from ..core import hx
 ID = "C06"
-PROPS = ["F1Verif.Props.C06", "F1Verif.Props.FactsC06", "F1Verif.Props.C06Do", "F1Verif.Props.C06DoGen", "F1Verif.Props.RefineC07", "F1Verif.Props.RefineC17Run", "F1Verif.Props.RefineC06T", "F1Verif.Props.RefineC05R", "F1Verif.Props.RefineC08C", "F1Verif.Props.RefineC08X", "F1Verif.Props.RefineC15F"]
+PROPS = ["F1Verif.Props.C06", "F1Verif.Props.FactsC06", "F1Verif.Props.C06Do", "F1Verif.Props.C06DoGen", "F1Verif.Props.RefineC07", "F1Verif.Props.RefineC17Run", "F1Verif.Props.RefineC06T", "F1Verif.Props.RefineC05R", "F1Verif.Props.RefineC08C", "F1Verif.Props.RefineC08X", "F1Verif.Props.RefineC15F", "F1Verif.Props.RefineC18N"]
 ALSO = ["F1Verif.Props.Handle"]
 RULE = ("engine A (component level): generated scenario programs — where setup, bodies and cleanups register cleanups, "
         "fail or panic (every failure API, five panic kinds, panics mid-stack, cleanups that register cleanups) — are "
